@@ -144,8 +144,9 @@ func EvalExpr(e gen.Expr, env Env) (any, error) {
 		default:
 			return nil, fmt.Errorf("bad operator %q", t.Op)
 		}
-		if math.IsNaN(out) || math.IsInf(out, 0) {
-			return nil, domain("non-finite intermediate")
+		// an intermediate may be infinite (IEEE); NaN is outside the asserted domain
+		if math.IsNaN(out) {
+			return nil, domain("NaN intermediate")
 		}
 		return out, nil
 	case gen.Neg:
